@@ -8,12 +8,13 @@ class MetricsCheck(common.SpecCheck):
     unit_fn = "units.metrics:run_metrics"
     QUICK = {"nseeds": 8, "specs": 160, "round": 160, "budget": 0}
     boost = 0
+    lf_any_leader = False     # True where only the instrumentation is judged, not the computed tensors
     stubs = common.SpecCheck.stubs + [
         "Metrics / Traffic / Compute / Format / intersector models -> recording stand-ins model/standins.py",
         "trace files -> simulated in-memory trace store (nothing touches the disk)"]
 
     def gen(self, rng, k):
-        return gm.gen_metrics(rng, orch.repo_path())
+        return gm.gen_metrics(rng, orch.repo_path(), lf_any_leader=self.lf_any_leader)
 
     def unit_args(self, spec, meta, inputs):
         return {"spec": spec, "yaml": specmod.to_yaml(spec), "inputs": inputs, "boost": self.boost}
